@@ -73,6 +73,8 @@ class Sym:
         o = lift(o)
         if o is NotImplemented:
             return o
+        if o is self:
+            return ZERO
         if o.op == "k":
             if self.op == "k":
                 return Sym("k", self.a - o.a)
@@ -112,7 +114,7 @@ class Sym:
             return o
         if o.op == "k":
             if o.a == 0:
-                raise ZeroDivisionError("symbolic division by the constant zero")
+                return SymInf(self)
             if self.op == "k":
                 return Sym("k", Fraction(self.a) / o.a)
             if o.a == 1:
@@ -151,6 +153,8 @@ class Sym:
         e = Fraction(e)
         if self.op == "k" and e.denominator == 1 and (e >= 0 or self.a != 0):
             return Sym("k", Fraction(self.a) ** int(e))
+        if self.op == "k" and self.a == 0 and e > 0:
+            return ZERO
         if e == 1:
             return self
         if e == 0:
@@ -206,6 +210,11 @@ class Sym:
 
     # ---- comparisons go to the decision oracle (paths.py installs it)
     def _cmp(self, o, rel):
+        if _is_inf(o):
+            pos = o > 0
+            return {"<": pos, "<=": pos, ">": not pos, ">=": not pos, "==": False, "!=": True}[rel]
+        if isinstance(o, SymInf):
+            return {"<": o.__gt__(self), "<=": o.__gt__(self), ">": o.__lt__(self), ">=": o.__lt__(self), "==": False, "!=": True}[rel]
         o = lift(o)
         if o is NotImplemented:
             return o
@@ -244,6 +253,49 @@ class Sym:
 
 ZERO = Sym("k", 0)
 ONE = Sym("k", 1)
+
+
+class SymInf:
+    """Z/0 with a divisor that is canonically zero: a signed infinity (sign of the numerator).  It
+    supports comparison with finite values and being overwritten, nothing else."""
+
+    def __init__(self, num):
+        self.num = num
+
+    def _sign_pos(self):
+        if bool(DECIDE(self.num, ZERO, ">")):
+            return True
+        if bool(DECIDE(self.num, ZERO, "<")):
+            return False
+        raise Undecided("0/0 in the symbolic domain")
+
+    def __gt__(self, o):
+        return self._sign_pos()
+
+    __ge__ = __gt__
+
+    def __lt__(self, o):
+        return not self._sign_pos()
+
+    __le__ = __lt__
+
+    def __eq__(self, o):
+        return False
+
+    def __ne__(self, o):
+        return True
+
+    __hash__ = object.__hash__
+
+    def _no(self, *a):
+        raise Undecided("arithmetic on an infinite value (division by an exact zero survived)")
+
+    __add__ = __radd__ = __sub__ = __rsub__ = __mul__ = __rmul__ = __truediv__ = __rtruediv__ = __neg__ = __pow__ = __abs__ = _no
+    __float__ = _no
+
+
+def _is_inf(o):
+    return isinstance(o, (float, _np.floating)) and o in (float("inf"), float("-inf"))
 
 
 class SymFloat(float):
@@ -379,6 +431,8 @@ def _compute(n):
     if op == "*":
         return alg.v_mul(a, n.b.val)
     if op == "/":
+        if n.b.val.is_zero():
+            raise Undecided("division by an expression that is identically zero inside a larger expression")
         return alg.v_div(a, n.b.val)
     if op == "neg":
         return alg.v_neg(a)
